@@ -496,3 +496,130 @@ def enc6(ctx, c):
 
 
 RULES = {"ENC-1": enc1, "ENC-2": enc2, "ENC-3": enc3, "ENC-4": enc4, "ENC-6": enc6}
+
+
+# ---------------------------------------------------------------------------------------------------
+# ENC-5 special operands (PSH/PUL register lists, TFR/EXG register pairs)
+
+def enc5(ctx, c):
+    from ..consteval import fold, NotConst, try_fold
+    from ..model import body_without_doc
+    repo = ctx.repo
+    fn = repo.method("SpecialOperand", "translate", inherited=False)
+    where = repo.loc(fn, fn.node)
+    regs = ctx.env.get("REGISTERS")
+    if not isinstance(regs, list):
+        c.undecided("SpecialOperand.translate", "REGISTERS-not-constant", "", where)
+        return
+    branches = [n for n in body_without_doc(fn.node) if isinstance(n, ast.If) and "mnemonic" in U(n.test)]
+    pp = next((b for b in branches if "PSHS" in U(b.test)), None)
+    te = next((b for b in branches if "TFR" in U(b.test)), None)
+    if pp is None or te is None:
+        raise AnalysisError("ENC-5: PSH/PUL or TFR/EXG branch of SpecialOperand.translate not found")
+    mnems = try_fold(pp.test.comparators[0], ctx.env) if isinstance(pp.test, ast.Compare) else None
+    c.check(sorted(mnems or []) == ["PSHS", "PSHU", "PULS", "PULU"], "SpecialOperand.translate:PSH/PUL:mnemonics", "PSHS PSHU PULS PULU", "branch covers %s" % mnems,
+            "the register-list branch covers %s" % mnems, repo.loc(fn, pp))
+    # ---- PSH/PUL
+    loop = next((n for n in ast.walk(pp) if isinstance(n, ast.For)), None)
+    if loop is None:
+        c.undecided("SpecialOperand.translate:PSH/PUL", "register-loop-not-found", "", repo.loc(fn, pp))
+    else:
+        rv = U(loop.target)
+        pre = []      # assignments before the loop (own_stack / other_stack)
+        for st in pp.body:
+            if st is loop:
+                break
+            if isinstance(st, ast.Assign) and isinstance(st.targets[0], ast.Name):
+                pre.append(st)
+        arms = [st for st in loop.body if isinstance(st, ast.AugAssign) and isinstance(st.op, ast.BitOr)]
+        rejects = [st for st in loop.body if isinstance(st, ast.If) and st.body and isinstance(st.body[-1], ast.Raise)]
+        c.floor("PSH/PUL mask arms", len(arms), 8)
+        n_ok = 0
+        for m in ("PSHS", "PSHU", "PULS", "PULU"):
+            own = m[-1]
+            other = "U" if own == "S" else "S"
+            env = dict(ctx.env)
+            env["self.instruction.mnemonic"] = m
+            try:
+                for st in pre:
+                    if "split" in U(st.value):
+                        continue
+                    env[st.targets[0].id] = fold(st.value, env)
+            except NotConst as e:
+                c.undecided("SpecialOperand.translate:%s" % m, "prelude-not-foldable", str(e), repo.loc(fn, pp))
+                continue
+            universe = sorted(set(regs) | {"S", "U", "X", "Y", "A", "B", "D", "CC", "DP", "PC", "Z", "W", ""})
+            for r in universe:
+                env[rv] = r
+                try:
+                    rejected = any(fold(x.test, env) for x in rejects)
+                    mask = 0
+                    for a in arms:
+                        mask |= fold(a.value, env)
+                except NotConst as e:
+                    c.undecided("SpecialOperand.translate:%s %s" % (m, r), "arm-not-foldable", str(e), repo.loc(fn, loop))
+                    continue
+                if r == own or r not in mc6809.PSHPUL_BITS and r != other:
+                    want = None
+                else:
+                    want = mc6809.PSHPUL_OTHER_STACK_BIT if r == other else mc6809.PSHPUL_BITS[r]
+                site = "SpecialOperand.translate:%s %s" % (m, r or "(empty)")
+                if want is None:
+                    c.check(rejected, site, "rejected", "accepted with mask %#04x" % mask,
+                            "%s %s is accepted (post-byte contribution %02X); the MC6809 has no such operation%s" % (m, r, mask, " - a stack cannot push/pull its own pointer" if r == own else ""), repo.loc(fn, loop))
+                else:
+                    good = (not rejected) and mask == want
+                    c.check(good, site, "mask %#04x" % want, "rejected" if rejected else "mask %#04x (datasheet %#04x)" % (mask, want),
+                            "%s %s: %s; the datasheet bit for %s is %02X" % (m, r, "rejected" if rejected else "mask %02X" % mask, r, want), repo.loc(fn, loop))
+                n_ok += 1
+        # empty operand rejected
+        emp = [st for st in pp.body if isinstance(st, ast.If) and "not self.operand_string" in U(st.test) and isinstance(st.body[-1], ast.Raise)]
+        c.check(bool(emp), "SpecialOperand.translate:PSH/PUL:empty", "an empty register list is rejected", "no check", "PSHS without registers is accepted", repo.loc(fn, pp))
+        # separator
+        seps = [try_fold(x.args[0]) for x in ast.walk(pp) if isinstance(x, ast.Call) and U(x.func).endswith(".split") and x.args]
+        c.check(seps == [","], "SpecialOperand.translate:PSH/PUL:separator", "split on ','", "split on %s" % seps, "register lists are split on %s" % seps, repo.loc(fn, pp))
+    # ---- TFR/EXG
+    arms = [st for st in te.body if isinstance(st, ast.AugAssign) and isinstance(st.op, ast.BitOr)]
+    c.floor("TFR/EXG nibble arms", len(arms), 18)
+    legal_if = next((st for st in te.body if isinstance(st, ast.If) and isinstance(st.test, ast.Compare) and isinstance(st.test.ops[0], ast.NotIn) and U(st.test.left) == "post_byte"), None)
+    legal = try_fold(legal_if.test.comparators[0], ctx.env) if legal_if is not None else None
+    if legal is None:
+        c.finding("SpecialOperand.translate:TFR/EXG:legality", "no legality check", "TFR/EXG accept any register pair (no legality list found)", repo.loc(fn, te))
+        legal = None
+    rejects = [st for st in te.body if isinstance(st, ast.If) and st.body and isinstance(st.body[-1], ast.Raise) and st is not legal_if]
+    rvar = "registers"
+    ref_legal = mc6809.tfr_legal_postbytes()
+    for a in sorted(set(regs) | set(mc6809.TFR_CODES)):
+        for b in sorted(set(regs) | set(mc6809.TFR_CODES)):
+            env = dict(ctx.env)
+            env[rvar] = [a, b]
+            env["self.instruction.mnemonic"] = "TFR"
+            try:
+                rej = any(fold(x.test, env) for x in rejects)
+                post = 0
+                for arm in arms:
+                    post |= fold(arm.value, env)
+            except NotConst as e:
+                c.undecided("SpecialOperand.translate:TFR %s,%s" % (a, b), "arm-not-foldable", str(e), repo.loc(fn, te))
+                continue
+            if legal is not None and not rej:
+                rej = post not in legal
+            known = a in mc6809.TFR_CODES and b in mc6809.TFR_CODES
+            same = known and ((a in mc6809.TFR_16) == (b in mc6809.TFR_16))
+            site = "SpecialOperand.translate:TFR %s,%s" % (a, b)
+            if same:
+                want = (mc6809.TFR_CODES[a] << 4) | mc6809.TFR_CODES[b]
+                c.check((not rej) and post == want, site, "post %#04x" % want, "rejected" if rej else "post %#04x (datasheet %#04x)" % (post, want),
+                        "TFR/EXG %s,%s: %s; the datasheet post-byte is %02X" % (a, b, "rejected" if rej else "post-byte %02X" % post, want), repo.loc(fn, te))
+            else:
+                c.check(rej, site, "rejected", "accepted with post %#04x" % post,
+                        "TFR/EXG %s,%s is accepted (post-byte %02X); registers of different size cannot be transferred or exchanged" % (a, b, post), repo.loc(fn, te))
+    cnt = next((st for st in te.body if isinstance(st, ast.If) and "len(registers) != 2" in U(st.test)), None)
+    c.check(cnt is not None, "SpecialOperand.translate:TFR/EXG:count", "exactly two registers", "no count check", "TFR/EXG do not require exactly two registers", repo.loc(fn, te))
+    # constructor gate: only special instructions
+    init = repo.method("SpecialOperand", "__init__", inherited=False)
+    gate = any(isinstance(n, ast.If) and "not instruction.is_special" in U(n.test) and isinstance(n.body[-1], ast.Raise) for n in ast.walk(init.node))
+    c.check(gate, "SpecialOperand.__init__", "only is_special instructions", "no gate", "SpecialOperand accepts non-special instructions", repo.loc(init, init.node))
+
+
+RULES["ENC-5"] = enc5
